@@ -80,6 +80,52 @@ class SecImpl:
         return self.canon(cls, log), counts
 
 
+    def run_multi(self, specs, schedule, lazy=False):
+        """several SecureHomeKitProtocol objects alive in ONE process: specs = [(key, ctr)], schedule = [(i, piece)] in
+        arrival order.  lazy: object i is created when its first read arrives (a reconnect), else all up-front.
+        -> [(canon, counts-after-each-of-its-reads)] per session"""
+        logs = [[] for _ in specs]
+        protos = [None] * len(specs)
+        state = [["run", []] for _ in specs]
+
+        def make(i):
+            log = logs[i]
+
+            def snap(kind, r):
+                log.append((kind, r.code, r.version, r.reason, [(n, v) for n, v in r.headers], bytes(r.body)))
+
+            class Sink:
+                def done(self):
+                    return False
+
+                def set_result(self, r):
+                    snap("H", r)
+
+            class Owner:
+                def event_received(self, r):
+                    snap("E", r)
+
+            key, ctr = specs[i]
+            pr = self.cls(Owner(), key, OTHER_KEY)
+            pr.a2c_counter = ctr
+            pr.result_cbs = [Sink() for _ in range(sum(len(p) for j, p in schedule if j == i) // 8 + 4)]
+            return pr
+
+        if not lazy:
+            protos = [make(i) for i in range(len(specs))]
+        for i, piece in schedule:
+            if protos[i] is None:
+                protos[i] = make(i)
+            if state[i][0] == "crash":
+                continue
+            try:
+                protos[i].data_received(piece)
+            except Exception:  # noqa
+                state[i][0] = "crash"
+            state[i][1].append(len(logs[i]))
+        return [(self.canon(state[i][0], logs[i]), state[i][1]) for i in range(len(specs))]
+
+
 class Case:
     """one encrypted stream: plaintext blocks, key, counter, optional tamper / truncated tail"""
 
@@ -246,6 +292,13 @@ def run_secure(ctx, drv, cov, add, xc, canon_msgs, catalogue, rand_msg, mutate, 
                         f"{case.expect_count(o)} complete messages ({case.label})", True, impl_counts=counts,
                         expected_counts=[case.expect_count(x) for x in offs], **case.replay(list(cuts)))
                     return False
+        if case.wellformed and case.tamper is not None and got.split(" ", 1)[1:] != case.want.split(" ", 1)[1:]:
+            # independent of the model: the messages complete inside the authentic blocks that precede the forged one
+            # were sent and must be delivered - exactly those, whatever the reads (exception class not compared)
+            add("secure:wf:before-forged-block", f"encrypted session: block {case.tamper[0]} is forged; the messages delivered are not "
+                f"exactly the complete messages of the {case.good} authentic blocks before it ({case.label})", True,
+                impl=got, expected=case.want, **case.replay(cuts))
+            return False
         if model_canon_s is not None and got != model_canon_s:
             add("secure:model-mismatch" + (":tampered" if case.tamper is not None else "" if case.wellformed else ":malformed"),
                 f"encrypted session: implementation {got[:100]} != model {model_canon_s[:100]} ({case.label})", False,
@@ -258,6 +311,66 @@ def run_secure(ctx, drv, cov, add, xc, canon_msgs, catalogue, rand_msg, mutate, 
     cat = catalogue()
     plains = []
     core = cat[:5] + cat[7:10]
+    # ---- E3 (runs first, so that a replay from a fresh process sees the same history): SEVERAL encrypted sessions alive in one process (two pairings of one controller; the old and the new
+    #          connection around a reconnect).  The property is per connection: what one session delivers is a function
+    #          of ITS ciphertext only.  Reads of 2-3 sessions are interleaved (each session's own order kept), including
+    #          reads that end inside a block while another session receives data, and a session abandoned mid-block
+    #          followed by a new one.  Oracle per session as in E1/E2 (independent of the model).
+    n_multi = 90 if quick else 1500
+    stats["multi_session_cases"] = 0
+    for i in range(n_multi):
+        ns = 2 if i % 3 else 3
+        mode = ["interleaved", "reconnect", "interleaved-samekey", "sequential"][i % 4]
+        key0 = r.getrandbits(256).to_bytes(32, "little")
+        cases = []
+        for j in range(ns):
+            if i % 2:
+                ms = [rand_msg(r, maxbody=r.choice([40, 300, 1500])) for _ in range(r.choice([1, 2, 3]))]
+                p = b"".join(m[0] for m in ms)
+            else:
+                a, b = r.choice(core), r.choice(core)
+                p = a[0] + b[0]
+            blocks = blockify(r, p, r.choice(["1024", "random", "random", "one"]))
+            key = key0 if mode == "interleaved-samekey" else r.getrandbits(256).to_bytes(32, "little")
+            ctr = r.choice(CTRS[:7])
+            tail = None
+            if mode == "reconnect" and j < ns - 1:     # this connection is lost inside a block
+                blocks.append(r.choice(core)[0])
+                tail = r.choice([1, 2, 3, 18, 19, 40])
+            cases.append(Case(canon_msgs, key, ctr, blocks, tail_cut=tail, label=f"session {j} of {ns} ({mode}), {len(blocks)} blocks"))
+        pcs = [cut(c.stream, frame_cuts(r, c, r.choice([1, 2, 3, 5, 8]))) for c in cases]
+        if mode in ("reconnect", "sequential"):
+            schedule = [(j, p) for j in range(ns) for p in pcs[j]]
+        else:
+            order = [j for j in range(ns) for _ in pcs[j]]
+            r.shuffle(order)
+            nxt = [0] * ns
+            schedule = []
+            for j in order:
+                schedule.append((j, pcs[j][nxt[j]]))
+                nxt[j] += 1
+        res = impl.run_multi([(c.key, c.ctr) for c in cases], schedule, lazy=(mode == "reconnect"))
+        for j, (c, (got, counts)) in enumerate(zip(cases, res)):
+            offs, pos = [], 0
+            for p in pcs[j]:
+                pos += len(p)
+                offs.append(pos)
+            exp = [c.expect_count(o) for o in offs]
+            if got != c.want or counts != exp:
+                alone, acounts = impl.run(c.key, c.ctr, pcs[j])
+                add("secure:wf:multi-session",
+                    f"{ns} encrypted sessions alive in one process ({mode}): session {j} does not deliver exactly the messages of its own "
+                    f"ciphertext" + (" although the same reads on a single session do" if alone == c.want else ""), True,
+                    impl=got, impl_counts=counts, expected=c.want, expected_counts=exp, impl_alone=alone, failing_session=j, mode=mode,
+                    sessions=[dict(session_key=hx(x.key), a2c_counter=x.ctr, plaintext_blocks=[hx(b) for b in x.blocks],
+                                   ciphertext=hx(x.stream)) for x in cases],
+                    schedule=[[j2, len(p)] for j2, p in schedule], created="at first read" if mode == "reconnect" else "up-front")
+                break
+        stats["multi_session_cases"] += 1
+        stats["segmentations"] += ns
+        cov.case("E3" + "".join(hx(c.stream[:24]) for c in cases) + repr([(j, len(p)) for j, p in schedule]), True,
+                 sample=dict(stream="E3", mode=mode, sessions=ns, schedule=[[j, len(p)] for j, p in schedule][:12]) if i % 40 == 0 else None,
+                 stream="E3-secure-multi-session", sec_sessions=ns, sec_multi_mode=mode, sec_multi_reads=min(len(schedule), 20))
     for a in core:
         for b in core:
             if len(a[0]) + len(b[0]) <= 130:
